@@ -450,7 +450,7 @@ func (u *Unit) qualified(pkgName, name string) (Term, bool) {
 func (u *Unit) fieldOf(base Term, name string) Term {
 	c := u.c
 	if base.Sort.Kind == KPtr {
-		base = c.ptrVal(base)
+		base = c.ptrVal(c.recFull(base))
 	}
 	switch base.Sort.Kind {
 	case KStruct:
@@ -583,6 +583,11 @@ func (env *Env) evalBin(e *SX) Term {
 		}
 		a := env.eval(e.Args[0])
 		b := env.eval(e.Args[1])
+		if a.Sort.Name != b.Sort.Name {
+			if r, ok := env.u.c.recPtrConv(b, a.Sort); ok {
+				b = r
+			}
+		}
 		if a.Sort.Name != b.Sort.Name {
 			sfail("sort mismatch in %q: %s vs %s", e.Raw, a.Sort.Name, b.Sort.Name)
 		}
@@ -737,7 +742,15 @@ func (env *Env) evalCall(e *SX) Term {
 		return app(sortInt, c.sortwFn(a.Sort), c.slArr(a), c.slArr(b), i)
 	case "same":
 		// native (term-level) equality, also for slices
-		return tEq(ev(0), ev(1))
+		a, b := ev(0), ev(1)
+		if a.Sort.Name != b.Sort.Name {
+			if r, ok := c.recPtrConv(b, a.Sort); ok {
+				b = r
+			} else {
+				sfail("sort mismatch in same(): %s vs %s", a.Sort.Name, b.Sort.Name)
+			}
+		}
+		return tEq(a, b)
 	case "isnil":
 		return env.nilCompare(ev(0), false)
 	case "min":
